@@ -211,6 +211,10 @@ pub fn run_one(tier: &str, check: &str, seed: u64, tmp: &Path, log: Option<&mut 
             let evs = crate::t19::generate(seed);
             with_runtime(crate::t19::run_events(seed, &evs, tmp, "g"))
         }
+        "t6" => {
+            let evs = crate::t6::generate(seed);
+            with_runtime(crate::t6::run_events(seed, &evs, tmp, "g"))
+        }
         "t17" => {
             let (cfg, reqs) = crate::t17::generate(seed);
             with_runtime(crate::t17::run_reqs(seed, cfg, &reqs, tmp, "g"))
@@ -293,6 +297,13 @@ pub fn run_list(
                 .map(|e| serde_json::from_value(e.clone()))
                 .collect::<Result<_, _>>()?;
             with_runtime(crate::t16::run_events(seed, cfg, &evs, tmp, tag))
+        }
+        "t6" => {
+            let evs: Vec<crate::t6::Ev> = events
+                .iter()
+                .map(|e| serde_json::from_value(e.clone()))
+                .collect::<Result<_, _>>()?;
+            with_runtime(crate::t6::run_events(seed, &evs, tmp, tag))
         }
         "t19" => {
             let evs: Vec<crate::t19::Ev> = events
